@@ -725,7 +725,7 @@ pub fn enumerate_ops(c: usize, n: usize, f: &mut dyn FnMut(&[Op])) {
 pub const META_C08: Meta = Meta {
     id: "C08",
     level: "exploration",
-    rule: "Stateful/model-based: operation histories over {write(n), write_all(n), write_vectored(a, b), flush, flush-then-drain, poll-until-pending, poll(k), sample} with n in {0,1,c-1,c,c+1,2c,3c,random}, then drop, interpreted against streaming_body (identity coding) and an in-memory model of accepted bytes. Exhaustive for all histories of <= 4 operations (thorough 5) over the 19-op alphabet with chunk sizes {1,2,3,4,7}; proptest vec(op, 0..40) for chunk sizes up to 65536. Payload bytes are a running position hash so order and duplication are visible. Non-trivial = >= 2 writes with a partial acceptance or a chunk boundary crossed, and a poll between two producer operations; distinct by fingerprint of history.",
+    rule: "Stateful/model-based: operation histories over {write(n), write_all(n), write_vectored(a, b), flush, flush-then-drain, poll-until-pending, poll(k), sample} with n in {0,1,c-1,c,c+1,2c,3c,random}, then drop, interpreted against streaming_body (identity coding) and an in-memory model of accepted bytes. Exhaustive for all histories of <= 4 operations (thorough 5) over the 19-op alphabet with chunk sizes {1,2,3,4,7}; proptest vec(op, 0..40) for chunk sizes up to 65536 with size classes {boundary sizes, nearly a full chunk, small fractions of a chunk, hundreds of chunks}, and 'repeated-pattern' histories (1-3 operations repeated 2-64 times). Payload bytes are a running position hash so order and duplication are visible. Non-trivial = >= 2 writes with a partial acceptance or a chunk boundary crossed, and a poll between two producer operations; distinct by fingerprint of history.",
     assumptions: &["single-threaded interleaving of producer operations and consumer polls (schedules are C10's subject)"],
 };
 
